@@ -2,7 +2,7 @@
 from checks import tracebase, cropfam
 
 PROP = "C13"
-MCS = {"quick": [], "thorough": []}
+MCS = {"quick": [("AquaIrr.tla", "MC_Irr_quick.cfg", 1200)], "thorough": [("AquaIrr.tla", "MC_Irr.cfg", 2400)]}
 
 
 def run(tier, seed):
